@@ -25,22 +25,22 @@ macro_rules! c06_uint_encode {
     };
 }
 
-//@ props=C06 tier=quick timeout=600 model=0 name=c06_encode_u8
+//@ props=C06 tier=quick timeout=600 model=0 name=c06_encode_u8 mem=4
 //@ functions=option_from_uint, option_to_uint, From<OptionValueU8> for Vec<u8>, TryFrom<Vec<u8>> for OptionValueU8
 //@ bounds=every u8
 //@ what=shortest big-endian form, round trip
 c06_uint_encode!(c06_encode_u8, OptionValueU8, u8, 1);
-//@ props=C06 tier=quick timeout=600 model=0 name=c06_encode_u16
+//@ props=C06 tier=quick timeout=600 model=0 name=c06_encode_u16 mem=4
 //@ functions=option_from_uint, option_to_uint, OptionValueU16
 //@ bounds=every u16
 //@ what=shortest big-endian form, round trip
 c06_uint_encode!(c06_encode_u16, OptionValueU16, u16, 2);
-//@ props=C06 tier=quick timeout=600 model=0 name=c06_encode_u32
+//@ props=C06 tier=quick timeout=600 model=0 name=c06_encode_u32 mem=4
 //@ functions=option_from_uint, option_to_uint, OptionValueU32
 //@ bounds=every u32
 //@ what=shortest big-endian form, round trip
 c06_uint_encode!(c06_encode_u32, OptionValueU32, u32, 4);
-//@ props=C06 tier=quick timeout=900 model=0 name=c06_encode_u64
+//@ props=C06 tier=quick timeout=900 model=0 name=c06_encode_u64 mem=4
 //@ functions=option_from_uint, option_to_uint, OptionValueU64
 //@ bounds=every u64
 //@ what=shortest big-endian form, round trip
@@ -79,22 +79,22 @@ macro_rules! c06_uint_decode {
     };
 }
 
-//@ props=C06 tier=quick timeout=600 model=0 name=c06_decode_u8
+//@ props=C06 tier=quick timeout=600 model=0 name=c06_decode_u8 mem=4
 //@ functions=option_to_uint, TryFrom<Vec<u8>> for OptionValueU8
 //@ bounds=every byte string of length 0..10
 //@ what=accept iff length <= width, value = big-endian fold
 c06_uint_decode!(c06_decode_u8, OptionValueU8, u8, 1);
-//@ props=C06 tier=quick timeout=600 model=0 name=c06_decode_u16
+//@ props=C06 tier=quick timeout=600 model=0 name=c06_decode_u16 mem=4
 //@ functions=option_to_uint, OptionValueU16
 //@ bounds=every byte string of length 0..10
 //@ what=accept iff length <= width, value = big-endian fold
 c06_uint_decode!(c06_decode_u16, OptionValueU16, u16, 2);
-//@ props=C06 tier=quick timeout=600 model=0 name=c06_decode_u32
+//@ props=C06 tier=quick timeout=600 model=0 name=c06_decode_u32 mem=4
 //@ functions=option_to_uint, OptionValueU32
 //@ bounds=every byte string of length 0..10
 //@ what=accept iff length <= width, value = big-endian fold
 c06_uint_decode!(c06_decode_u32, OptionValueU32, u32, 4);
-//@ props=C06 tier=quick timeout=900 model=0 name=c06_decode_u64
+//@ props=C06 tier=quick timeout=900 model=0 name=c06_decode_u64 mem=4
 //@ functions=option_to_uint, OptionValueU64
 //@ bounds=every byte string of length 0..10
 //@ what=accept iff length <= width, value = big-endian fold
@@ -148,7 +148,7 @@ fn ref_utf8_valid(b: &[u8; 4], l: usize) -> bool {
     true
 }
 
-//@ props=C06 tier=quick timeout=1800 mem=16 model=0 name=c06_string_roundtrip_3
+//@ props=C06 tier=quick timeout=1800 mem=13 model=0 name=c06_string_roundtrip_3
 //@ functions=TryFrom<Vec<u8>> for OptionValueString, From<OptionValueString> for Vec<u8>, String::from_utf8
 //@ bounds=every byte string of length 0..3 (symbolic length and bytes)
 //@ what=well-formed UTF-8 (RFC 3629, checked by an independent case table) is accepted and converts back to the same bytes; anything else is rejected with an error
@@ -157,7 +157,7 @@ fn ref_utf8_valid(b: &[u8; 4], l: usize) -> bool {
 macro_rules! c06_string {
     ($name:ident, $maxl:expr) => {
 #[kani::proof]
-#[kani::unwind(7)]
+#[kani::unwind(10)]
 #[kani::stub(core::fmt::write, crate::verif_harness::stub_write)]
 #[kani::stub(core::str::from_utf8, crate::verif_harness::model_from_utf8)]
 fn $name() {
@@ -190,7 +190,7 @@ fn $name() {
 }
 c06_string!(c06_string_roundtrip_3, 3);
 
-//@ props=C06 tier=thorough timeout=3000 mem=24 model=0 name=c06_string_roundtrip_4
+//@ props=C06 tier=thorough timeout=3000 mem=19 model=0 name=c06_string_roundtrip_4
 //@ functions=TryFrom<Vec<u8>> for OptionValueString, From<OptionValueString> for Vec<u8>, String::from_utf8
 //@ bounds=every byte string of length 0..4
 //@ what=as c06_string_roundtrip_3; reaches four-byte code points
